@@ -1,6 +1,6 @@
 \* long random walks with every action, larger graphs, expectations recorded at every step
 CONSTANTS
-  GraphIds = {1,2,3,4,5,6,7,8,10,11}
+  GraphIds = {1,2,3,4,5,6,7,8,10,11,12}
   MaxTip = 5
   Mat = 2
   LeaseIds = {1,2}
